@@ -9,6 +9,7 @@ Open Scope Z_scope.
 
 (** score at t = change score between X[t-b:t] and X[t:t+b] for b <= t <= n-b, 0 elsewhere *)
 From SK Require Import Check.Scores Check.MwCheck Proofs.CheckerSoundness Proofs.ValidCuts.
+From SK Require Import Model.Generic Proofs.GenericZ.
 Theorem C08_scores : forall CS b n t, (t < n)%nat ->
   length (mw_scores CS b n) = n /\
   nthZ (mw_scores CS b n) t = if ((b <=? t)%nat && (t + b <=? n)%nat)%bool then CS (t - b)%nat t (t + b)%nat else 0.
@@ -86,3 +87,9 @@ Print Assumptions C08_wellformedness_checker_sound.
 Print Assumptions C08_model_equality_checker_sound.
 Print Assumptions C08_reversal_checker_sound.
 Print Assumptions C08_only_valid_cuts_matter.
+
+(** ---- added: statements re-derived from the lemma files by tools/append_props.py ---- *)
+Theorem C08_generic_loop_at_Z_is_the_model : forall (CS : nat -> nat -> nat -> T Zn) (b n : nat) (thr : T Zn) (mdi : nat), gmw Zn CS b n thr mdi = mw CS b n thr mdi.
+Proof. exact @gmw_Z. Qed.
+
+Print Assumptions C08_generic_loop_at_Z_is_the_model.
